@@ -3,6 +3,7 @@ package props
 import (
 	"go/ast"
 	"go/token"
+	"go/types"
 	"strings"
 
 	"pdfverif/internal/core"
@@ -30,6 +31,8 @@ func runC13(c *core.Ctx) {
 	ruleRunCompression(c, "C13-R7")
 	ruleCMapStreamKeys(c)
 	ruleCMapBounded(c)
+	ruleRangeIndexStep(c)
+	ruleIncrementBase(c)
 }
 
 func runC14(c *core.Ctx) {
@@ -265,5 +268,145 @@ func ruleSimpleEncode(c *core.Ctx) {
 				o.Require(g.EdgeDominates(head, core.EdgeRef{From: bv, Label: core.EdgeFalse}), "the search can start with a full table")
 			}
 		}
+	})
+}
+
+// ruleRangeIndexStep (C13-R8): a CMap range <first> <last> is a rectangle:
+// in every byte position the code byte runs from first[i] to last[i].  The
+// position of a code in the range is therefore a mixed-radix number whose
+// digit i has the radix last[i]-first[i]+1.  The per-byte update of the
+// accumulator in rangeIndex is tabulated against that definition (the loop
+// itself is a plain range over the code bytes; the update is one
+// assignment).  With radix 256 instead, every range that is narrower than a
+// full byte in a low position maps to the wrong CIDs / texts.
+func ruleRangeIndexStep(c *core.Ctx) {
+	c.Check("C13-R8", cmapPkg+".rangeIndex/step", "the accumulator update is acc*(last[i]-first[i]+1) + (b-first[i]) for every accumulator value, byte and byte range tabulated", func(o *core.Ob) {
+		fn := c.Prog.Func(cmapPkg, "rangeIndex")
+		g := fn.Graph()
+		info := fn.Info()
+		// the accumulator: the variable returned (converted) on the success path
+		var acc types.Object
+		for _, r := range g.Returns() {
+			rs := r.AST.(*ast.ReturnStmt)
+			if len(rs.Results) == 2 {
+				if cv := core.ConstOf(info, rs.Results[1]); cv != nil && cv.String() == "true" {
+					acc = core.ObjOf(info, stripConv(info, rs.Results[0]))
+				}
+			}
+		}
+		if acc == nil {
+			core.Undecided("accumulator not found (success return)")
+		}
+		var upd *ast.AssignStmt
+		n := 0
+		for _, dv := range defVertices(g, acc) {
+			if as, ok := dv.AST.(*ast.AssignStmt); ok && g.InLoop(dv) {
+				upd = as
+				n++
+			}
+		}
+		if n != 1 || len(upd.Lhs) != 1 {
+			core.Undecided("expected one accumulator update in the loop, found %d", n)
+		}
+		o.At(fn.Site(upd, "accumulator update"))
+		rhs := upd.Rhs[0]
+		if upd.Tok != token.ASSIGN {
+			core.Undecided("compound accumulator update %s", c.Prog.Src(upd))
+		}
+		// single-definition locals of the loop body are substituted by their definitions
+		subst := map[types.Object]ast.Expr{}
+		ast.Inspect(fn.Decl.Body, func(m ast.Node) bool {
+			if as, ok := m.(*ast.AssignStmt); ok && as.Tok == token.DEFINE && len(as.Lhs) == 1 && len(as.Rhs) == 1 {
+				if obj := core.ObjOf(info, as.Lhs[0]); obj != nil && obj != acc && len(core.AssignsTo(info, fn.Decl, obj)) == 1 {
+					subst[obj] = as.Rhs[0]
+				}
+			}
+			return true
+		})
+		// the loop's byte variable
+		var bName string
+		ast.Inspect(fn.Decl.Body, func(m ast.Node) bool {
+			if rs, ok := m.(*ast.RangeStmt); ok && rs.Value != nil {
+				bName = core.ExprStr(rs.Value)
+			}
+			return true
+		})
+		if bName == "" {
+			core.Undecided("range loop over the code bytes not found")
+		}
+		params := fn.Decl.Type.Params.List
+		if len(params) < 1 || len(params[0].Names) != 3 {
+			core.Undecided("rangeIndex(first, last, code) signature changed")
+		}
+		first, last := params[0].Names[0].Name, params[0].Names[1].Name
+		doms := map[string][]int64{
+			acc.Name(): {0, 1, 2, 7, 300},
+			bName:      {0, 1, 0x20, 0x21, 0x7e, 0xfe, 0xff},
+			first:      {0, 1, 0x20, 0x21},
+			last:       {0x21, 0x7e, 0xfe, 0xff},
+		}
+		cnt, bad := 0, 0
+		decided, reason := c.Prog.Tabulate(fn, rhs, subst, doms, func(env map[string]int64, v int64, _ bool) {
+			a, _ := core.EnvGet(env, acc.Name())
+			b, _ := core.EnvGet(env, bName)
+			f, _ := core.EnvGet(env, first)
+			l, _ := core.EnvGet(env, last)
+			if b < f || b > l {
+				return // outside the rectangle: the function has already returned
+			}
+			cnt++
+			want := a*(l-f+1) + (b - f)
+			if v != want {
+				bad++
+				if bad <= 3 {
+					o.Fail("%s: for acc=%d, byte=%d in [%d,%d] the update %s gives %d, the mixed-radix position is %d", c.Prog.Pos(upd.Pos()), a, b, f, l, c.Prog.Src(rhs), v, want)
+				}
+			}
+		})
+		if !decided {
+			core.Undecided("update %s could not be tabulated: %s", c.Prog.Src(rhs), reason)
+		}
+		o.Count(cnt)
+		o.Require(cnt > 100, "only %d combinations tabulated", cnt)
+	})
+}
+
+// ruleIncrementBase (C13-R9): for a range written in the "first text,
+// incremented" form the text of the i-th code is nextString(Values[0], i):
+// the increment is applied to the FIRST text.  Lookup, All and the reverse
+// lookup are siblings and must agree; a running value (incrementing the
+// previous result) differs as soon as an intermediate value is not
+// representable (surrogates become U+FFFD when converted back to a string).
+func ruleIncrementBase(c *core.Ctx) {
+	c.Check("C13-R9", cmapPkg+".nextString/base", "every reader of a ToUnicode range derives the i-th text from the range's first text and the index", func(o *core.Ob) {
+		pkg := c.Prog.Pkg(cmapPkg)
+		n := 0
+		for _, fn := range c.Prog.Funcs(pkg) {
+			if fn.Obj.Name() == "NewToUnicodeFile" || fn.Obj.Name() == "nextString" {
+				continue // the builder compares adjacent texts: a different use
+			}
+			info := fn.Info()
+			for _, call := range core.CallsTo(info, fn.Decl.Body, true, cmapPkg+".nextString") {
+				n++
+				o.At(fn.Site(call, "i-th text of a range"))
+				base := ast.Unparen(call.Args[0])
+				ix, ok := base.(*ast.IndexExpr)
+				okBase := false
+				if ok {
+					if k, isK := core.IntConst(info, ix.Index); isK && k == 0 {
+						if sel, isSel := ast.Unparen(ix.X).(*ast.SelectorExpr); isSel && sel.Sel.Name == "Values" {
+							okBase = true
+						}
+					}
+				}
+				if !okBase {
+					o.FailAt(fn.Site(call, ""), "%s: the text is derived from %s, not from the range's first text Values[0]", c.Prog.Pos(call.Pos()), c.Prog.Src(call.Args[0]))
+				}
+				if _, isConst := core.IntConst(info, call.Args[1]); isConst {
+					o.FailAt(fn.Site(call, ""), "%s: the increment is the constant %s, not the index of the code in the range", c.Prog.Pos(call.Pos()), c.Prog.Src(call.Args[1]))
+				}
+			}
+		}
+		o.Require(n >= 3, "expected the three readers (Lookup, All, reverse lookup) to call nextString, found %d calls", n)
 	})
 }
